@@ -277,6 +277,8 @@ class SFTPFile(BufferedFile):
 
         See `file.seek` for details.
         """
+        if self._closed:
+            raise IOError("File is closed")
         self.flush()
         if whence == self.SEEK_SET:
             target = offset
@@ -369,6 +371,8 @@ class SFTPFile(BufferedFile):
         self.sftp._log(
             DEBUG, "truncate({}, {!r})".format(hexlify(self.handle), size)
         )
+        if self._closed:
+            raise IOError("File is closed")
         if not (self._flags & self.FLAG_WRITE):
             raise IOError("File not open for writing")
         # pending writes must reach the file before it is resized, and
